@@ -412,6 +412,7 @@ func rulesC04(w *World, r *Report) {
 	w.ruleRefKeyIdentity(r, "C04.R6 the ref key identifies the container")
 	w.ruleTablesAppendOnly(r, "C04.R7 ref tables are append-only within a stream", []string{"Encoder", "Decoder"})
 	w.ruleTablesStartEmpty(r, "C04.R7 numbering tables start empty", []string{"Encoder", "Decoder"})
+	w.ruleRefOrdinal(r, "C04.R8 a back-reference is x51 followed by the registrar's ordinal in the int codec")
 	w.ruleNotifyAfterFinalValue(r, "C04.R5 references keep identity")
 
 	// R3 decoder: container readers
@@ -757,6 +758,58 @@ func rulesC05(w *World, r *Report) {
 	if loop == nil {
 		r.undecided("C05.R1 one wire value per definition field", "(*Decoder).readObject · field loop", w.pos(ro.Pos()), "no loop bounded by len(definition field names) found")
 		return
+	}
+	// the loop is left only when the definition is exhausted, or with an error: a
+	// second condition ("all Go fields filled", "enough read") leaves the remaining
+	// wire values of the instance on the stream
+	{
+		idx := errIndex(ro.Signature)
+		nExit, badExit := 0, ""
+		for b := range loop.body {
+			iff, ok := b.Instrs[len(b.Instrs)-1].(*ssa.If)
+			if !ok {
+				continue
+			}
+			for _, sx := range b.Succs {
+				if loop.body[sx] {
+					continue
+				}
+				nExit++
+				if bo, isBo := iff.Cond.(*ssa.BinOp); isBo && bo.Op == token.LSS && iterationIndex(iff.Cond, loop.header) != nil && strings.HasPrefix(f.term(bo.Y).Key(), "len(") {
+					continue // the definition counter
+				}
+				// the failing side of an error test
+				if bo, isBo := iff.Cond.(*ssa.BinOp); isBo && (bo.Op == token.NEQ || bo.Op == token.EQL) && (isNilConst(bo.X) || isNilConst(bo.Y)) {
+					other := bo.X
+					if isNilConst(other) {
+						other = bo.Y
+					}
+					nonNilSide := b.Succs[0]
+					if bo.Op == token.EQL {
+						nonNilSide = b.Succs[1]
+					}
+					if isErrorType(other.Type()) && sx == nonNilSide {
+						continue
+					}
+				}
+				t := sx
+				for k := 0; k < 3; k++ {
+					if j, isJ := t.Instrs[len(t.Instrs)-1].(*ssa.Jump); isJ {
+						_ = j
+						t = t.Succs[0]
+					}
+				}
+				if ret, isR := t.Instrs[len(t.Instrs)-1].(*ssa.Return); isR && idx >= 0 && w.nonNilErr(ret.Results[idx], nil, nil, 0) {
+					continue // a failure
+				}
+				if badExit == "" {
+					badExit = w.instrPos(iff)
+				}
+			}
+		}
+		r.add("C05.R1 the field loop ends with the definition or with an error", "(*Decoder).readObject · field loop exits", w.pos(ro.Pos()), badExit == "",
+			map[bool]string{true: fmt.Sprintf("%d exits: the definition counter and error returns only", nExit),
+				false: "the test at " + badExit + " leaves the field loop before the definition is exhausted without an error: the wire values of the remaining definition fields stay on the stream and are taken for the next value"}[badExit == ""])
 	}
 	// enumerate paths header → header inside the body
 	type pathRes struct {
